@@ -1,5 +1,5 @@
 import SoundeventModel.Ops.Common
-import SoundeventModel.Aoef.Closure
+import SoundeventModel.Aoef.Reach
 namespace SE.Ops.C01
 open Lean SE SE.Aoef SE.Paths
 
@@ -67,14 +67,6 @@ def optDir (a : Json) (k : String) : Except String (Option PPath) :=
 
 def getCollection (a : Json) : Except String Collection := do fromJson? (← fld a "collection")
 
-/-- `load (save c)` iterated `n` times: save under `sdir`, load under `ldir` -/
-def cycles (sdir ldir : Option PPath) : Nat → Collection → Except Err Collection
-  | 0, c => .ok c
-  | n + 1, c => do
-    let d ← save c sdir
-    let c' ← load d ldir
-    cycles sdir ldir n c'
-
 def handle (op : String) (a : Json) : Except String Json := do
   match op with
   | "fields" => return fieldTable
@@ -88,6 +80,10 @@ def handle (op : String) (a : Json) : Except String Json := do
     let c ← getCollection a
     let n ← fldNat a "n"
     return exceptJ toJson (cycles (← optDir a "save_dir") (← optDir a "load_dir") n c)
+  | "wf" =>
+    -- is the collection inside the quantifier of C01 / C02 (coherent sharing, distinct feature labels, distinct members)?
+    let c ← getCollection a
+    return boolJ (wfB c)
   | "echo" =>
     -- parse a collection and write it back (validates the harness' encoding of objects)
     let c ← getCollection a
